@@ -147,11 +147,13 @@ def for_range(ctx):
     ctx.floor("FOR-RANGE", 5)
 
 
-def check_flags(fi, fe):
+def check_flags(fi, fe, start_is_max=False):
     a = sym.atom_of(fi, True)
-    c = sym.atom_of(fe, True)
     if a != ("lt", P2, P1):
         return "finished_inclusive is %s, expected start > end" % show(fi)
+    if start_is_max and fe == ("bool", True):
+        return None           # start is the largest value of the type, so `start >= end` holds for every end
+    c = sym.atom_of(fe, True)
     if c != ("le", P2, P1):
         return "finished_exclusive is %s, expected start >= end" % show(fe)
     return None
@@ -182,7 +184,11 @@ def char_arm(ctx, prog, b, fn, ps, cur, key):
     def outcome(arg_want, ov_want):
         def f(path, case):
             fi, fe, ov, nx = path.value[2:6]
-            m = check_flags(fi, fe)
+            try:
+                at_max = fn == "increment" and case.val(x) == case.val(("int", 0x10FFFF, "u32"))
+            except KeyError:
+                at_max = False
+            m = check_flags(fi, fe, at_max)
             if m:
                 return m
             arg = nx[1][3] if nx[0] == "vfield" and nx[1][0] == "call" and nx[1][1] == F else None
